@@ -137,11 +137,9 @@ func buildLoaderSSA(c *Ctx, rule string) *loaderSSA {
 			ls.cycleK, ls.hasK = v, true
 		}
 	}
-	// A: a lookup in a map[string]bool field controls (taken) a block that uses the cycle-error constant
-	isBoolSet := func(t types.Type) bool {
-		m, ok := t.Underlying().(*types.Map)
-		return ok && types.TypeString(m.Key(), nil) == "string" && types.TypeString(m.Elem(), nil) == "bool"
-	}
+	// A: a membership test (in a map or a slice used as a stack) whose positive outcome is necessary for reaching a
+	// use of the cycle-error constant - directly, through a verdict helper (`switch t.judge(p) { case cycle: ...`)
+	// or at the call sites of an error constructor
 	for _, f := range ls.fns {
 		for _, b := range f.Blocks {
 			uses := false
@@ -158,8 +156,6 @@ func buildLoaderSSA(c *Ctx, rule string) *loaderSSA {
 			if !uses {
 				continue
 			}
-			// the test that controls this use: in the function itself, or - when the error is built by a closure or
-			// constructor helper - at the helper's call sites
 			blks := []*ssa.BasicBlock{b}
 			for d, frontier := 0, []*ssa.Function{f}; d < 2; d++ {
 				var next []*ssa.Function
@@ -176,33 +172,75 @@ func buildLoaderSSA(c *Ctx, rule string) *loaderSSA {
 					break
 				}
 				for _, cc := range controlCondsPol(blk) {
-					if lk, ok := cc.Cond.(*ssa.Lookup); ok && cc.Taken && isBoolSet(lk.X.Type()) {
-						if k := ls.setOf(lk.X); k != nil {
-							ls.A = k
+					for _, m := range necessaryMemberships(cc.Cond, cc.Taken, 0) {
+						if m.pos {
+							if k := ls.setOf(m.set); k != nil && ls.A == nil {
+								ls.A = k
+							}
 						}
 					}
 				}
 			}
 		}
 	}
-	// L: another map[string]bool field that is marked with true somewhere in the package; cache: the map field of
-	// the loader that is looked up
+	// the per-file cache: the map field of the loader that is looked up
 	for _, f := range ls.fns {
 		for _, b := range f.Blocks {
 			for _, ins := range b.Instrs {
-				switch x := ins.(type) {
-				case *ssa.MapUpdate:
-					if fv := ls.setOf(x.Map); fv != nil && fv != ls.A && isBoolSet(x.Map.Type()) {
-						if k, ok := x.Value.(*ssa.Const); ok && k.Value != nil && k.Value.Kind() == constant.Bool && constant.BoolVal(k.Value) {
-							ls.L = fv
-						}
-					}
-				case *ssa.Lookup:
+				if x, ok := ins.(*ssa.Lookup); ok {
 					if ld, ok := x.X.(*ssa.UnOp); ok {
 						if fa, ok := ld.X.(*ssa.FieldAddr); ok && typeHasSuffix(fa.X.Type(), "include.Loader") {
 							if _, isMap := x.X.Type().Underlying().(*types.Map); isMap {
 								ls.cache = fieldVarOfAddr(fa)
 							}
+						}
+					}
+				}
+			}
+		}
+	}
+	// L: the container (other than A) whose negative membership is necessary for recording a file in the result;
+	// it may be the result's own Files map.  Fallback: a set-like map other than A that receives `true` / struct{}{}.
+	for _, f := range ls.fns {
+		for _, b := range f.Blocks {
+			for _, ins := range b.Instrs {
+				if !ls.isRecord(ins) {
+					continue
+				}
+				blks := []*ssa.BasicBlock{b}
+				for d, frontier := 0, []*ssa.Function{f}; d < 2; d++ {
+					var next []*ssa.Function
+					for _, h := range frontier {
+						if ls.scc[h] && d > 0 {
+							continue
+						}
+						for _, site := range (cgView{c}).callersOf(h) {
+							blks = append(blks, site.Block())
+							next = append(next, site.Parent())
+						}
+					}
+					frontier = next
+				}
+				for _, blk := range blks {
+					for _, cc := range controlCondsPol(blk) {
+						for _, m := range necessaryMemberships(cc.Cond, cc.Taken, 0) {
+							if k := ls.setOf(m.set); !m.pos && k != nil && k != ls.A && ls.L == nil && (ls.cache == nil || k != any(ls.cache)) {
+								ls.L = k
+							}
+						}
+					}
+				}
+			}
+		}
+	}
+	if ls.L == nil {
+		for _, f := range ls.fns {
+			for _, b := range f.Blocks {
+				for _, ins := range b.Instrs {
+					if x, ok := ins.(*ssa.MapUpdate); ok {
+						mt, _ := x.Map.Type().Underlying().(*types.Map)
+						if fv := ls.setOf(x.Map); fv != nil && fv != ls.A && mt != nil && isSetElem(mt.Elem()) && types.TypeString(mt.Key(), nil) == "string" {
+							ls.L = fv
 						}
 					}
 				}
@@ -220,27 +258,41 @@ func buildLoaderSSA(c *Ctx, rule string) *loaderSSA {
 // ---- events
 
 func (ls *loaderSSA) isMarkA(ins ssa.Instruction) bool {
-	mu, ok := ins.(*ssa.MapUpdate)
-	return ok && ls.setOf(mu.Map) == ls.A
+	v, ok := insertInto(ins)
+	return ok && ls.A != nil && ls.setOf(v) == ls.A
 }
 func (ls *loaderSSA) isUnmarkA(ins ssa.Instruction) bool {
-	var call *ssa.CallCommon
+	if v, ok := removeFrom(ins); ok && ls.A != nil && ls.setOf(v) == ls.A {
+		return true
+	}
+	// a deferred / called function value (a literal, or the undo function returned by the marking helper)
+	// that removes the mark
+	var cc *ssa.CallCommon
 	switch x := ins.(type) {
-	case *ssa.Call:
-		call = x.Common()
 	case *ssa.Defer:
-		call = x.Common()
+		cc = x.Common()
+	case *ssa.Call:
+		cc = x.Common()
 	default:
 		return false
 	}
-	if bi, ok := call.Value.(*ssa.Builtin); ok && bi.Name() == "delete" && len(call.Args) > 0 {
-		return ls.setOf(call.Args[0]) == ls.A
+	if cc.StaticCallee() != nil || cc.IsInvoke() {
+		return false
+	}
+	for _, fn := range funcsBehind(cc.Value, 0) {
+		for _, b := range fn.Blocks {
+			for _, i2 := range b.Instrs {
+				if v, ok := removeFrom(i2); ok && ls.A != nil && ls.setOf(v) == ls.A {
+					return true
+				}
+			}
+		}
 	}
 	return false
 }
 func (ls *loaderSSA) isMarkL(ins ssa.Instruction) bool {
-	mu, ok := ins.(*ssa.MapUpdate)
-	return ok && ls.L != nil && ls.setOf(mu.Map) == ls.L
+	v, ok := insertInto(ins)
+	return ok && ls.L != nil && ls.setOf(v) == ls.L
 }
 func (ls *loaderSSA) isRecord(ins ssa.Instruction) bool {
 	mu, ok := ins.(*ssa.MapUpdate)
@@ -422,9 +474,38 @@ func sliceWithControl(v ssa.Value, depth int, out map[ssa.Value]bool) {
 
 func (ls *loaderSSA) isLookupIn(set any) func(ssa.Instruction) bool {
 	return func(ins ssa.Instruction) bool {
-		lk, ok := ins.(*ssa.Lookup)
-		return ok && set != nil && ls.setOf(lk.X) == set
+		v, ok := memberTest(ins)
+		return ok && set != nil && ls.setOf(v) == set
 	}
+}
+
+// funcsBehind: the functions a function value can stand for: a literal, a local variable holding one, the
+// literal(s) returned by a module function call.
+func funcsBehind(v ssa.Value, depth int) []*ssa.Function {
+	if depth > 3 {
+		return nil
+	}
+	if fn := resolveLocalFunc(v); fn != nil {
+		return []*ssa.Function{fn}
+	}
+	var out []*ssa.Function
+	switch x := v.(type) {
+	case *ssa.Call:
+		if h := x.Call.StaticCallee(); h != nil && h.Blocks != nil && inModule(h) {
+			for _, b := range h.Blocks {
+				for _, ins := range b.Instrs {
+					if r, ok := ins.(*ssa.Return); ok && len(r.Results) >= 1 {
+						out = append(out, funcsBehind(unspillResult(r.Results[0], b), depth+1)...)
+					}
+				}
+			}
+		}
+	case *ssa.Phi:
+		for _, e := range x.Edges {
+			out = append(out, funcsBehind(e, depth+1)...)
+		}
+	}
+	return out
 }
 
 // setOf: the identity of a map value: the struct field it is loaded from, or the class of parameters / fresh
@@ -446,8 +527,83 @@ func setKey(v ssa.Value) any {
 		return x
 	case *ssa.MakeMap:
 		return x
+	case *ssa.Slice:
+		return setKey(x.X) // a re-slice of the same stack
+	case *ssa.Call:
+		// append(s, x) is still s
+		if bi, ok := x.Call.Value.(*ssa.Builtin); ok && bi.Name() == "append" && len(x.Call.Args) > 0 {
+			return setKey(x.Call.Args[0])
+		}
 	}
 	return nil
+}
+
+// ---- the set abstraction: a set of paths is a map (to bool / struct{} / anything) or a slice used as a stack.
+
+// memberTest: the instruction tests membership of a value in a container: `m[k]`, `_, ok := m[k]`,
+// slices.Contains(s, k).  Returns the container value.
+func memberTest(ins ssa.Instruction) (ssa.Value, bool) {
+	switch x := ins.(type) {
+	case *ssa.Lookup:
+		if _, isMap := x.X.Type().Underlying().(*types.Map); isMap {
+			return x.X, true
+		}
+	case *ssa.Call:
+		cal := x.Call.StaticCallee()
+		if cal == nil {
+			return nil, false
+		}
+		name := cal.String()
+		if o := cal.Origin(); o != nil {
+			name = o.String()
+		}
+		if (name == "slices.Contains" || name == "slices.Index") && len(x.Call.Args) == 2 {
+			return x.Call.Args[0], true
+		}
+	}
+	return nil, false
+}
+
+// insertInto / removeFrom: the instruction adds an element to / removes one from a container; returns the
+// container's identity value.
+func insertInto(ins ssa.Instruction) (ssa.Value, bool) {
+	switch x := ins.(type) {
+	case *ssa.MapUpdate:
+		return x.Map, true
+	case *ssa.Store:
+		// s = append(s, x)
+		if call, ok := x.Val.(*ssa.Call); ok {
+			if bi, ok := call.Call.Value.(*ssa.Builtin); ok && bi.Name() == "append" && len(call.Call.Args) == 2 {
+				if _, isSlice := call.Type().Underlying().(*types.Slice); isSlice {
+					if ld, ok := call.Call.Args[0].(*ssa.UnOp); ok && ld.Op == token.MUL && sameAddr(ld.X, x.Addr, 0) {
+						return call.Call.Args[0], true
+					}
+				}
+			}
+		}
+	}
+	return nil, false
+}
+
+func removeFrom(ins ssa.Instruction) (ssa.Value, bool) {
+	switch x := ins.(type) {
+	case *ssa.Call:
+		if bi, ok := x.Call.Value.(*ssa.Builtin); ok && bi.Name() == "delete" && len(x.Call.Args) == 2 {
+			return x.Call.Args[0], true
+		}
+	case *ssa.Defer:
+		if bi, ok := x.Call.Value.(*ssa.Builtin); ok && bi.Name() == "delete" && len(x.Call.Args) == 2 {
+			return x.Call.Args[0], true
+		}
+	case *ssa.Store:
+		// s = s[:len(s)-1]
+		if sl, ok := x.Val.(*ssa.Slice); ok {
+			if ld, ok := sl.X.(*ssa.UnOp); ok && ld.Op == token.MUL && sameAddr(ld.X, x.Addr, 0) {
+				return sl.X, true
+			}
+		}
+	}
+	return nil, false
 }
 
 func (ls *loaderSSA) find(k any) any {
@@ -477,28 +633,84 @@ func ruleLoaderCycle(c *Ctx) {
 	if ls == nil {
 		return
 	}
-	// --- G-ANCESTOR: every mark of the ancestor set is removed on every exit of the function it is made in
-	nMarks := 0
-	for _, f := range ls.fns {
-		hasDeferredUnmark := false
+	// --- G-ANCESTOR: every mark of the ancestor set is removed on every exit of the function it is made in.  A
+	// helper that leaves its mark standing (`enter`, possibly returning the undo function) hands the obligation to
+	// its callers: there the call is the mark event.  A function that removes its own marks is not one.
+	leaves := map[*ssa.Function]int{} // 0 unknown, 1 leaves a mark, 2 clean
+	var leavesMark func(f *ssa.Function, depth int) bool
+	unmarkAt := func(x ssa.Instruction) bool { return ls.isUnmarkA(x) }
+	hasDeferredUnmarkIn := func(f *ssa.Function) bool {
 		for _, b := range f.Blocks {
 			for _, ins := range b.Instrs {
-				if d, ok := ins.(*ssa.Defer); ok && ls.event("unmarkA", d, ls.isUnmarkA) {
-					hasDeferredUnmark = true
+				if d, ok := ins.(*ssa.Defer); ok && unmarkAt(d) {
+					return true
 				}
 			}
 		}
+		return false
+	}
+	var markEvent func(ins ssa.Instruction, depth int) bool
+	markEvent = func(ins ssa.Instruction, depth int) bool {
+		if ls.isMarkA(ins) {
+			return true
+		}
+		if call, ok := ins.(*ssa.Call); ok {
+			if cal := call.Call.StaticCallee(); cal != nil && cal.Blocks != nil && inModule(cal) && !ls.scc[cal] {
+				return leavesMark(cal, depth+1)
+			}
+		}
+		return false
+	}
+	var unmarkEvent func(ins ssa.Instruction) bool
+	unmarkEvent = func(ins ssa.Instruction) bool {
+		if unmarkAt(ins) {
+			return true
+		}
+		if call, ok := ins.(ssa.CallInstruction); ok {
+			if _, isGo := ins.(*ssa.Go); isGo {
+				return false
+			}
+			if cal := call.Common().StaticCallee(); cal != nil && cal.Blocks != nil && inModule(cal) && !ls.scc[cal] {
+				return ls.contains("unmarkA", cal, ls.isUnmarkA, 0) && !leavesMark(cal, 1)
+			}
+		}
+		return false
+	}
+	leavesMark = func(f *ssa.Function, depth int) bool {
+		if depth > 3 {
+			return false
+		}
+		if v := leaves[f]; v != 0 {
+			return v == 1
+		}
+		leaves[f] = 2
+		if hasDeferredUnmarkIn(f) {
+			return false
+		}
 		for _, b := range f.Blocks {
 			for _, ins := range b.Instrs {
-				if !ls.event("markA", ins, ls.isMarkA) {
+				if markEvent(ins, depth) && escapes(ins, unmarkEvent) {
+					leaves[f] = 1
+					return true
+				}
+			}
+		}
+		return false
+	}
+	nMarks := 0
+	for _, f := range ls.fns {
+		deferred := hasDeferredUnmarkIn(f)
+		for _, b := range f.Blocks {
+			for _, ins := range b.Instrs {
+				if !markEvent(ins, 0) {
 					continue
 				}
-				// a helper that only marks (enter) hands the obligation to its callers: the event is then the call
-				if ls.isMarkA(ins) && !ls.scc[f] && !ls.contains("unmarkA", f, ls.isUnmarkA, 0) && len(cgView{c}.callersOf(f)) > 0 {
+				// the marking helper itself: judged at its call sites
+				if !ls.scc[f] && leavesMark(f, 0) && len(cgView{c}.callersOf(f)) > 0 {
 					continue
 				}
 				nMarks++
-				okRemoved := hasDeferredUnmark || !escapes(ins, func(x ssa.Instruction) bool { return ls.event("unmarkA", x, ls.isUnmarkA) })
+				okRemoved := deferred || !escapes(ins, unmarkEvent)
 				c.check(okRemoved, "G-ANCESTOR", funcName(f), "ancestor mark removed on exit", ins.Pos(),
 					"the mark placed on entry is removed on every exit (ancestor-stack discipline)",
 					"a file is marked in the set tested by the cycle check but the mark is not removed on every exit: 'currently being included' degenerates to 'seen before', so a file reached twice along different acyclic paths (a diamond) is reported as a cycle")
@@ -1140,4 +1352,116 @@ func (ls *loaderSSA) checkLoadState(c *Ctx) {
 		}
 		c.census("G-LOADSTATE", "map fields of the per-load state", nf, 2)
 	}
+}
+
+type membership struct {
+	set ssa.Value // the container
+	pos bool      // membership (true) or absence (false) is necessary
+}
+
+// necessaryMemberships: membership facts that hold whenever cond evaluates to `taken`: cond is a membership test
+// itself, the comparison of a verdict helper's result with a constant (the helper's matching return statements
+// are entered), or a boolean helper.
+func necessaryMemberships(cond ssa.Value, taken bool, depth int) []membership {
+	if depth > 3 || cond == nil {
+		return nil
+	}
+	if u, ok := cond.(*ssa.UnOp); ok && u.Op == token.NOT {
+		return necessaryMemberships(u.X, !taken, depth)
+	}
+	if ex, ok := cond.(*ssa.Extract); ok && ex.Index == 1 {
+		if lk, ok := ex.Tuple.(*ssa.Lookup); ok {
+			return []membership{{lk.X, taken}}
+		}
+	}
+	if ins, ok := cond.(ssa.Instruction); ok {
+		if set, ok := memberTest(ins); ok {
+			if lk, isLk := ins.(*ssa.Lookup); !isLk || !lk.CommaOk {
+				return []membership{{set, taken}}
+			}
+		}
+	}
+	returnsOf := func(cal *ssa.Function, idx int, want func(rv ssa.Value) (match bool, expr ssa.Value)) []membership {
+		var out []membership
+		for _, b := range cal.Blocks {
+			if len(b.Instrs) == 0 {
+				continue
+			}
+			r, ok := b.Instrs[len(b.Instrs)-1].(*ssa.Return)
+			if !ok || idx >= len(r.Results) {
+				continue
+			}
+			match, expr := want(unspillResult(r.Results[idx], b))
+			if expr != nil {
+				out = append(out, necessaryMemberships(expr, taken, depth+1)...)
+			}
+			if !match {
+				continue
+			}
+			for _, cc := range controlCondsPol(b) {
+				out = append(out, necessaryMemberships(cc.Cond, cc.Taken, depth+1)...)
+			}
+		}
+		return out
+	}
+	switch x := cond.(type) {
+	case *ssa.BinOp:
+		if x.Op != token.EQL && x.Op != token.NEQ {
+			return nil
+		}
+		eq := (x.Op == token.EQL) == taken
+		if !eq {
+			return nil
+		}
+		call, k := x.X, x.Y
+		if _, isConst := call.(*ssa.Const); isConst {
+			call, k = x.Y, x.X
+		}
+		kc, ok := k.(*ssa.Const)
+		if !ok || kc.Value == nil {
+			return nil
+		}
+		idx := 0
+		if ex, ok := call.(*ssa.Extract); ok {
+			idx, call = ex.Index, ex.Tuple
+		}
+		cv, ok := call.(*ssa.Call)
+		if !ok {
+			return nil
+		}
+		cal := cv.Call.StaticCallee()
+		if cal == nil || cal.Blocks == nil || !inModule(cal) {
+			return nil
+		}
+		return returnsOf(cal, idx, func(rv ssa.Value) (bool, ssa.Value) {
+			rc, ok := rv.(*ssa.Const)
+			return ok && rc.Value != nil && constant.Compare(rc.Value, token.EQL, kc.Value), nil
+		})
+	case *ssa.Call:
+		cal := x.Call.StaticCallee()
+		if cal == nil || cal.Blocks == nil || !inModule(cal) {
+			return nil
+		}
+		return returnsOf(cal, 0, func(rv ssa.Value) (bool, ssa.Value) {
+			if rc, ok := rv.(*ssa.Const); ok && rc.Value != nil && rc.Value.Kind() == constant.Bool {
+				return constant.BoolVal(rc.Value) == taken, nil
+			}
+			return false, rv
+		})
+	case *ssa.Extract:
+		// the ok / admitted flag of a multi-result helper
+		if cv, ok := x.Tuple.(*ssa.Call); ok {
+			cal := cv.Call.StaticCallee()
+			if cal == nil || cal.Blocks == nil || !inModule(cal) {
+				return nil
+			}
+			return returnsOf(cal, x.Index, func(rv ssa.Value) (bool, ssa.Value) {
+				if rc, ok := rv.(*ssa.Const); ok && rc.Value != nil && rc.Value.Kind() == constant.Bool {
+					return constant.BoolVal(rc.Value) == taken, nil
+				}
+				return false, rv
+			})
+		}
+	}
+	return nil
 }
